@@ -82,6 +82,9 @@ func (x *g) term(d int) *rt.Term {
 		if x.p(25, "int") {
 			return rt.I(int64(x.n(0, 2, "i")))
 		}
+		if x.p(10, "nil") { // [] as an element / argument (in a list it is an element, not the end)
+			return rt.A("[]")
+		}
 		return x.atom()
 	case k < 7:
 		return rt.C("f", x.term(d-1))
@@ -206,7 +209,7 @@ func (x *g) goal(d int) *rt.Term {
 		{x.f.Call, func() *rt.Term {
 			switch x.n(0, 3, "callkind") {
 			case 0:
-				return rt.C("call", x.conj(d-1, 2, x.f.Cut))
+				return rt.C("call", x.metaGoal(d-1, 2, x.f.Cut))
 			case 1:
 				s := x.sigs[x.n(0, len(x.sigs)-1, "csig")]
 				if s.arity == 0 {
@@ -240,9 +243,9 @@ func (x *g) goal(d int) *rt.Term {
 		}},
 		{x.f.Neg, func() *rt.Term {
 			if x.p(40, "once") {
-				return rt.C("once", x.conj(d-1, 2, x.f.Cut))
+				return rt.C("once", x.metaGoal(d-1, 2, x.f.Cut))
 			}
-			return rt.C("\\+", x.conj(d-1, 2, x.f.Cut))
+			return rt.C("\\+", x.metaGoal(d-1, 2, x.f.Cut))
 		}},
 		{x.f.Catch, func() *rt.Term {
 			// dedicated productions for the two rare shapes: a throw in the continuation of a catch/3
@@ -262,7 +265,7 @@ func (x *g) goal(d int) *rt.Term {
 				bad := []*rt.Term{x.v(), rt.V(int64(900 + x.n(10, 19, "freshgoal"))), rt.I(1), rt.C(",", rt.A("true"), rt.I(1)), rt.C(",", rt.C("n", x.v()), x.v())}[x.n(0, 4, "badgoal")]
 				return rt.C("catch", bad, x.catcher(), x.conj(d-1, 2, false))
 			case 0, 1, 2:
-				return rt.C("catch", x.conj(d-1, 3, x.f.Cut), x.catcher(), x.conj(d-1, 2, false))
+				return rt.C("catch", x.metaGoal(d-1, 3, x.f.Cut), x.catcher(), x.conj(d-1, 2, false))
 			case 3, 4:
 				return rt.C("throw", x.ball())
 			default:
@@ -355,7 +358,7 @@ func (x *g) dbGoal() *rt.Term {
 }
 
 func (x *g) allSol(d int) *rt.Term {
-	goal := x.conj(d-1, 2, x.f.Cut)
+	goal := x.metaGoal(d-1, 2, x.f.Cut)
 	tmpl := x.term(1)
 	res := x.v()
 	if x.p(15, "boundres") {
@@ -374,6 +377,20 @@ func (x *g) allSol(d int) *rt.Term {
 		}
 		return rt.C("setof", tmpl, goal, res)
 	}
+}
+
+// metaGoal is the goal argument of a cut-opaque construct (call/1, catch/3, findall/3, \+, once/1): a
+// conjunction, or (a quarter of the time) a disjunction of two conjunctions standing directly in the argument
+// position - a cut in one of its disjuncts is local to the construct and removes the other disjunct.
+func (x *g) metaGoal(d, max int, cut bool) *rt.Term {
+	if !x.f.NestedDisj || !x.p(25, "metadisj") {
+		return x.conj(d, max, cut)
+	}
+	left, right := x.conj(d, 2, cut), x.conj(d, 2, cut)
+	if left.Is("->", 2) { // (C -> T ; E) would be an if-then-else: its branches must not hold a bare cut
+		left = rt.C(",", rt.A("true"), left)
+	}
+	return rt.C(";", left, right)
 }
 
 // conj builds a conjunction of 1..max goals; cut says a bare ! may be a direct conjunct.
@@ -532,6 +549,13 @@ func GenProgram(f Features) *rapid.Generator[*Program] {
 		}
 		pr.Clauses = append(pr.Clauses, rt.C("m", rt.A("a")), rt.C("m", rt.A("b")))
 		pr.Clauses = append(pr.Clauses, libClauses...)
+		if x.p(6, "table") {
+			// a table of 30-70 facts in the middle of the text (predicates before and after it)
+			x.sigs = append(x.sigs, sig{"tb", 1})
+			for i, n := 1, x.n(30, 70, "tablesize"); i <= n; i++ {
+				pr.Clauses = append(pr.Clauses, rt.C("tb", rt.I(int64(100+i))))
+			}
+		}
 		for _, s := range user {
 			nc := x.n(1, 4, "nclauses")
 			for i := 0; i < nc; i++ {
